@@ -381,7 +381,9 @@ def collection_cell(P, A):
             B.hit()
             ns = [w for w in out.warns if w.category.__name__ == 'MosMergeNonStrictWarning']
             others = [w.category.__name__ for w in out.warns if w.category.__name__ != 'MosMergeNonStrictWarning']
-            if pre_completed.raised or pre_completed.result != (bool(P.get('rc_completed')),) * 2:
+            if P.get('readback'):
+                pass        # C14 cells: only the read-back criterion below is judged here (the fold is C09's)
+            elif pre_completed.raised or pre_completed.result != (bool(P.get('rc_completed')),) * 2:
                 sig = 'completed-before-any-merge'
             elif got_ids != want_ids:
                 sig = 'readers-not-in-ascending-numeric-order'
@@ -399,6 +401,19 @@ def collection_cell(P, A):
                 sig = 'other-warnings-differ'
             elif mc.completed != mc.ro.completed or (B.Ctx.replay and str(mc) != str(mc.ro)):
                 sig = 'collection-accessors-disagree-with-ro'
+            if sig is None and P.get('readback'):
+                # C14: what the collection holds after the merge (complete or not, whatever failed) still is one
+                # running order that serialises and reads back identically
+                from .h_merge import envelope_ok
+                sig = envelope_ok(mc.ro, rc_mid, 'RO')
+                if sig is None and B.Ctx.replay:
+                    text = str(mc)
+                    back = B.call(lambda: mt.MosFile.from_string(text))
+                    if back.raised:
+                        sig = 'merged-collection-does-not-read-back-' + type(back.exc).__name__
+                    elif str(back.result) != text or type(back.result).__name__ != 'RunningOrder' or \
+                            back.result.completed != mc.ro.completed:
+                        sig = 'merged-collection-reads-back-differently'
             if B.Ctx.replay:
                 B.note(observed={'reader_ids': got_ids, 'raised': B.conc(out.exc), 'nonstrict_warnings': len(ns),
                                  'stories': B.story_ids(mc.ro)},
